@@ -17,13 +17,20 @@ def run(ctx):
         ctx.run_tlc('addons', 'Hook', 'Hook_MC_neg_dedrecv.cfg', expect_violation='ExactlyOneHookCall', workers=4, timeout=300)
         ctx.run_tlc('addons', 'Hook', 'Hook_MC_neg_stream.cfg', expect_violation='ExactlyOneHookCall', workers=4, timeout=300)
         ctx.run_tlc('addons', 'Hook', 'Hook_MC_neg_nodes.cfg', expect_violation='DerivedWrapped', workers=4, timeout=300)
+        # round 2: stacked hooks (WithHook of a hooked client) and the state of the caller's context at every call
+        ctx.run_tlc('addons', 'Hook', 'Hook_MC_quick_r2.cfg', workers=4, timeout=900)
+        ctx.run_tlc('addons', 'Hook', 'Hook_MC_neg_stack.cfg', expect_violation='ExactlyOneHookCall', workers=4, timeout=300)
+        ctx.run_tlc('addons', 'Hook', 'Hook_MC_neg_ctx.cfg', expect_violation='ResultUnchanged', workers=4, timeout=300)
 
     binp = vlib.build('hookdrv')
     d = ac.scratch()
     try:
         allc = []
         complete = True
-        for cfg in (['Hook_Gen3.cfg', 'Hook_GenChains5.cfg'] if th else ['Hook_Gen3.cfg', 'Hook_GenChains4.cfg']):
+        # Hook_GenR2: every program of 3 operations (<= 2 calls) under two stacked hooks with live / cancelled / expired caller
+        # contexts, one node address (these programs are also replayed over a REAL single client, see hookdrv)
+        for cfg in (['Hook_Gen3.cfg', 'Hook_GenChains5.cfg', 'Hook_GenR2.cfg'] if th else
+                    ['Hook_Gen3.cfg', 'Hook_GenChains4.cfg', 'Hook_GenR2.cfg']):
             cases, r = ac.gen_cases(ctx, 'Hook', cfg, timeout=1500)
             complete = complete and r.ok
             allc += cases
@@ -36,5 +43,7 @@ def run(ctx):
         rep = ctx.run_driver(binp, ['-cases', p], timeout=900)
         ctx.exhaustive = bool(complete and rep is not None and rep.get('evaluations') == len(allc))
         ctx.extra['programs_generated'] = len(allc)
+        if rep:
+            ctx.extra.update(rep.get('extra') or {})
     finally:
         shutil.rmtree(d, ignore_errors=True)
